@@ -19,7 +19,8 @@ def main():
     mod = importlib.import_module("rules.%s" % prop)
     try:
         ctx = Ctx()
-        mod.run(ctx, rep, "quick")
+        from .runrules import run_module
+        run_module(mod, ctx, rep, "quick")
         from . import darule
         darule.apply(ctx, rep)
     except Exception as e:      # a later rule lost its anchor on this tree: the instances decided before that still stand
